@@ -1,6 +1,4 @@
 from props import _common as c
-import os
-_model = open(os.path.join(os.path.dirname(os.path.dirname(os.path.abspath(__file__))), "harness", "C04_model.rs")).read()
 
 SPEC = dict(
     id="C04",
@@ -22,26 +20,21 @@ SPEC = dict(
              items=["struct XRefEntry", "struct XRefEntryExt", "struct XRefTable", "impl Default for XRefTable", "struct ObjHeader",
                     "impl XRefTable::new", "impl XRefTable::get_entry", "impl XRefTable::get_extended_entry", "impl XRefTable::is_compressed",
                     "impl XRefTable::add_entry", "impl XRefTable::add_extended_entry", "impl XRefTable::add_headers_latest_wins",
-                    "impl XRefTable::parse_with_incremental_updates_options", "impl XRefTable::trailer"],
+                    "impl XRefTable::trailer"],
              drop_uses=["super::xref_stream", "super::xref_types", "crate::parser::reader"],
              rebind=[("use std::collections::HashMap;", "use crate::verif_shims::arraymap::HashMap;"),
                      ("std::collections::HashSet::new()", "crate::verif_shims::arraymap::HashSet::new()")],
-             epilogue=_model, harness="C04_xref.rs"),
+             harness="C04_xref.rs"),
     ],
-    stubs_doc=c.FILTER_STUBS_DOC + [
-        "XRefTable::find_xref_offset / parse_primary_with_options / scan_and_fill_missing_objects -> models in harness/C04_model.rs: the file is a /Prev chain of <= 3 revisions, each a symbolic statement about objects 1 and 2, materialised with the same representation the real section parser produces",
-        "std HashMap / HashSet -> array models (incl. the `std::collections::HashSet::new()` path inside the merge loop, rebound textually)",
-        "BufReader over an empty in-memory file (only seek / stream_position are used by the merge loop)",
-    ],
+    stubs_doc=["std HashMap -> inline array model (capacity 4)"],
     outside_claim=[
-        "reading real bytes: xref text/stream parsing, find_xref_offset, the hybrid-file scan, object-stream contents",
-        "more than 3 revisions or more than 2 object numbers; comparison with an independent reader",
-        "PdfReader::load_object_from_disk itself (its 12-line dispatch order is transcribed in the harness and is part of the trusted base)",
+        "THE NEWEST-FIRST MERGE OF THE /Prev CHAIN (parse_with_incremental_updates_options) AND THE READER'S DISPATCH: attempted with a symbolic 3-revision history and an I/O model (harness/C04_merge_attempt.rs.txt, harness/C04_model.rs) -- 27.5 M variables / 128 M clauses, out of memory at 24 GB, no verdict in 1800 s after shrinking; so the stale-compressed-definition defect the property names is NOT decided by this check",
+        "reading real bytes, object streams, more than 3 scanned headers, comparison with an independent reader",
     ],
-    trusted=["harness/C04_model.rs (representation invariant of parsed sections, transcribed from xref.rs)", "the dispatch order transcribed from reader.rs load_object_from_disk"],
+    trusted=["array model of HashMap"],
 )
 
 MANIFEST = dict(
-    text="Bounded model checking of the real newest-first merge loop (XRefTable::parse_with_incremental_updates_options, sliced) over a symbolic history: every /Prev chain of up to 3 revisions (cycles included), each revision independently declaring objects 1 and 2 absent / in use / free / compressed with arbitrary offsets, generations and (stream, index); the merged table, read with the reader's dispatch order, must resolve each object to its most recent statement. Second obligation: add_headers_latest_wins on 3 arbitrary scanned headers over an arbitrary pre-populated table.",
-    note="Trusted: Kani/CBMC; models of the I/O and section parsing around the merge loop (harness/C04_model.rs); array models of HashMap/HashSet; the transcribed dispatch order. Outside: real file bytes, object streams' content, > 3 revisions.",
+    text="Bounded model checking of the recovery-path latest-wins rule only: XRefTable::add_headers_latest_wins (sliced from parser/xref.rs) on 3 scanned headers with arbitrary object numbers, generations and ascending offsets over a table already holding one arbitrary regular and one arbitrary compressed entry, check_extended arbitrary: every unprotected object resolves to its LAST (highest-offset) header with that header's generation, protected entries are untouched. The /Prev-chain merge itself did not fit the solver (see level_note) and is outside this claim.",
+    note="PARTIAL: decides one of the three mechanisms of C04. The newest-first merge of the /Prev chain was encoded (symbolic 3-revision history over the real loop with an I/O model) but the query (27.5 M variables, 128 M clauses) ran out of memory at 24 GB and did not finish in 1800 s after shrinking; it is recorded under outside_claim, not claimed.",
 )
